@@ -196,9 +196,22 @@ def cmp(op, a, b):
     if a.sort == B or b.sort == B:
         assert op == 'eq' and a.sort == B and b.sort == B
         return or_(and_(a, b), and_(not_(a), not_(b)))
+    # |x| < c and |x| <= c' are false for c <= 0, c' < 0   (|x| is ite(0 <= x, x, -x))
+    if op in ('lt', 'le') and b.op == 'const' and _is_abs(a):
+        if (op == 'lt' and b.args[0] <= 0) or (op == 'le' and b.args[0] < 0):
+            return FALSE
     if op == 'eq' and a.uid > b.uid:
         a, b = b, a
     return _mk(op, (a, b), B)
+
+
+def _is_abs(t):
+    if t.op != 'ite':
+        return False
+    c, x, y = t.args
+    if c.op == 'le' and c.args[0].op == 'const' and c.args[0].args[0] == 0 and c.args[1] is x:
+        return y is mul(const(-1, x.sort), x)
+    return False
 
 
 def lt(a, b): return cmp('lt', a, b)
